@@ -303,9 +303,24 @@ func driveC06(seed int64, tier, out, replay string) {
 		}
 		idx++
 	}
+	// the answer to a mutation is lost on the wire (real sockets, pooled connections): still exactly once
+	if replay == "" {
+		for _, how := range []string{"drop", "status", "cut", "drop"} {
+			what := runLostAnswer(how)
+			if strings.HasPrefix(what, "skip:") {
+				obs.Count("lost_answer_skipped")
+				obs.Notes = append(obs.Notes, what)
+				continue
+			}
+			obs.Count("lost_answer_" + how)
+			if what != "" {
+				obs.Fail(idx, what, map[string]interface{}{"scenario": "lost_answer", "how": how})
+			}
+		}
+	}
 	obs.Evaluations = idx
 	obs.DistinctNontrivial = len(distinct)
-	obs.Rule = "generated mutation operations (1-3 root fields, aliases, nested selections owned by other services) over generated worlds, 6 configurations (plain/cached planner, id-to-type hint, real MultiOpQueryer with max batch 1/2/3000), each sent 1-3 times (two-operation documents alternate operationName), then once more with a fault injected into a follow-up step; the request logs of the evaluating fakes are checked per client request; non-trivial = at least 2 sub-requests"
+	obs.Rule = "generated mutation operations (1-3 root fields, aliases, nested selections owned by other services) over generated worlds, 6 configurations (plain/cached planner, id-to-type hint, real MultiOpQueryer with max batch 1/2/3000), each sent 1-3 times (two-operation documents alternate operationName), then once more with a fault injected into a follow-up step; the request logs of the evaluating fakes are checked per client request; non-trivial = at least 2 sub-requests; plus four runs over real sockets in which the service executes a mutation arriving on a pooled connection and the answer is lost (connection dropped, 502, answer cut off)"
 	hx.WriteCases(out, "From Pebbles Require Import Plan.Root Corr.C06.\nFrom Coq Require Import List String. Import ListNotations.\nOpen Scope string_scope.\n", "c6case", coq, "mismatches")
 	obs.Write(out)
 }
